@@ -23,7 +23,7 @@ FANOUT_CHUNK = 8  # the parallel cases are heavy: small chunks keep the 16 worke
 LEVEL = "model_checking"
 RULE = (
     "sequential lattice: n in 1..7(|10) x chunksize {1,2,3,n-1,n,n+1,None} x source {data frame, FITS, HDF5, "
-    "Parquet with row groups {1,2,n}, random generator} x columns {-,w,z,w+z} x dtype {f8,f4|i8,i4} x degrees x "
+    "Parquet with row groups {1,2,n}, random generator, FITS with the data in extension 2 behind a decoy table} x columns {-,w,z,w+z} x dtype {f8,f4|i8,i4} x degrees x "
     "patch mode {centres, id column (stored as i8 and, for n in {3,6}, as u1/u2/i2/u4/i4/u8 together with integer weights), centres + an id column of another partition (must be ignored) | patch_num} x progress x buffersize {-1,0,1,2,100}; parallel: W in {2,3} "
     "workers x n x chunksize, every delivery order of the pool tasks of every chunk (all interleavings of the "
     "virtual pool/queue/writer process under the partial-order reduction of DESIGN.md E3b; on eight small instances also every completion order of the patch-loading pool). Oracle: per patch "
@@ -89,6 +89,10 @@ def cases(tier, seed):
                             mode="ids", progress=False, int_dtype=idt))
         out.append(dict(part="seq", n=n, chunksize=cs, source=source, cols="wz", dtype="f8", degrees=True,
                         mode="centres+ids", progress=False))
+    # FITS file with two tables of equal column names, the data in the second extension (hdu=2)
+    for n, cs, mode in itertools.product((3, 6), (2, None), ("centres", "ids")):
+        out.append(dict(part="seq", n=n, chunksize=cs, source="fits-hdu2", cols="wz", dtype="f8", degrees=True,
+                        mode=mode, progress=False))
     if tier == "thorough":
         for n in (8, 9, 12):
             for cs in (3, n, None):
@@ -163,7 +167,15 @@ def make_source(case, d):
         df.index = np.arange(n)[::-1] * 2 + 3
     if src == "frame":
         return (lambda path, **k: Catalog.from_dataframe(path, df, **dict(kw, **k))), cols
-    if src == "fits":
+    if src == "fits-hdu2":
+        from astropy.io import fits
+        from astropy.table import Table
+
+        p = os.path.join(d, "in2.fits")
+        decoy = {k: (np.asarray(v)[::-1][: max(1, n - 1)] + (1 if k != "pid" else 0)) for k, v in cols.items()}
+        fits.HDUList([fits.PrimaryHDU(), fits.table_to_hdu(Table(decoy)), fits.table_to_hdu(Table(cols))]).writeto(p)
+        kw["hdu"] = 2
+    elif src == "fits":
         from astropy.table import Table
 
         p = os.path.join(d, "in.fits")
